@@ -22,23 +22,62 @@ def _short(s, n=300):
 
 def run(ctx):
     ctx.build_harness()
+    # translator: the definitions of the three defs.jq files that the models transcribe, as the
+    # real parser reads the real files (Props/C12 `defs_as_transcribed` compares them with the
+    # transcription the models were written from)
+    gen = ctx.harness(["c12", "defs"])
+    if "def defs : List DefRow" not in gen:
+        raise verif.CheckError("c12 defs printed no table")
+    old_rows = {}
+    try:
+        import os
+        for l in open(os.path.join(verif.LEAN, "JaqVerif", "C12", "Defs.lean")):
+            if l.startswith('  ("'):
+                old_rows[l.split("], ")[0].strip() + "]"] = l.strip().rstrip(",")
+    except OSError:
+        pass
+    changed_defs = []
+    for l in gen.splitlines():
+        if l.startswith('  ("'):
+            k = l.split("], ")[0].strip() + "]"
+            if old_rows and old_rows.get(k) != l.strip().rstrip(","):
+                changed_defs.append(k)
+    if ctx.write_gen("C12Defs", gen):
+        ctx.log("Gen/C12Defs.lean changed")
+    if changed_defs:
+        ctx.log("definitions that differ from the transcription in C12/Defs.lean:", "; ".join(changed_defs))
+        ctx.notes.append("defs.jq definitions differ from the transcription the C12 models were written from: " + "; ".join(changed_defs)
+                         + " — `defs_as_transcribed` (Props/C12) does not hold; the correspondence below looks for a failing input")
     ctx.build_model()
     proof = ctx.lean_check()
     ctx.log("lean:", "ok" if proof["ok"] else "BROKEN", len(proof["theorems"]), "theorems")
 
     # ------------------------------------------------------------ correspondence + spec
-    out = ctx.harness(["c12", "gen"])
+    out = ctx.harness(["c12", "gen"], check=False)
     cases, specs = [], []
+    last_pre, ended = None, False
     for l in out.splitlines():
         if not l:
             continue
+        if l == "END":
+            ended = True
+            continue
         parts = l.split("\t")
+        if parts[0] == "PRE":
+            last_pre = parts[1] if len(parts) > 1 else None
+            continue
         if parts[0] == "SPEC" and len(parts) == 6:
             specs.append(parts[1:])
         elif len(parts) in (3, 4):
             cases.append(tuple(parts[:3]) + (parts[3] if len(parts) == 4 else "",))
     if len(cases) < 1000:
         raise verif.CheckError("harness produced only %d correspondence cases" % len(cases))
+    if not ended:
+        # the generator died inside the real library (e.g. stack overflow of a diverging definition)
+        if last_pre is None:
+            raise verif.CheckError("harness c12 gen ended early after %d cases" % len(cases))
+        ctx.violation("c12:crash:" + _short(last_pre, 200), "the real library does not return on `%s` (process died)" % _short(last_pre, 120),
+                      {"replay": "jaq -nc '%s'" % last_pre, "program": last_pre}, broken=["walk_eqn"])
 
     panics = [c for c in cases if "PANIC" in c[2]]
     for c in panics[:10]:
@@ -50,12 +89,16 @@ def run(ctx):
     ans = ctx.model(reqs)
     bad = unmodelled = 0
     kinds = {}
+    unm_by_op = {}
     for (cid, req, real, human), m in zip(cases, ans):
         op = req.split(" ")[0] + (":" + req.split(" ")[1] if req.startswith(("c12.keyed", "c12.round ", "c12.is ", "c12.totype")) else "")
         kinds[op] = kinds.get(op, 0) + 1
         if m == "unmodelled":
             unmodelled += 1
+            unm_by_op[op] = unm_by_op.get(op, 0) + 1
             continue
+        if m == "bad-request":
+            raise verif.CheckError("driver rejects request: " + _short(req, 300))
         if real != m:
             bad += 1
             if bad <= 25:
@@ -64,6 +107,11 @@ def run(ctx):
                               {"case_id": cid, "replay": "jaq -nc '%s'" % human, "request": req, "real": real, "model": m},
                               broken=["correspondence " + op])
     ctx.log("correspondence: %d cases, %d disagreements, %d outside the model, %d panics" % (len(cases), bad, unmodelled, len(panics)))
+    # the models of the defs.jq filters declare inputs outside their scope (slices, byte strings, big
+    # integers as positions); a model that covers too little of what is generated is a machinery error
+    for op, n in unm_by_op.items():
+        if ended and kinds.get(op, 0) >= 50 and n * 2 > kinds.get(op, 0):
+            raise verif.CheckError("model covers less than half of the generated cases of %s (%d of %d outside)" % (op, n, kinds[op]))
 
     # real code vs the manual's definition (computed by the Lean model)
     sreq = [s[1] for s in specs]
@@ -142,6 +190,9 @@ def run(ctx):
         "oracle_per_equation": {n: {"ok": s[0], "fail": s[1], "both_error": s[2]} for n, s in sums.items()},
         "disagreements": bad,
         "outside_model": unmodelled,
+        "outside_model_by_operation": unm_by_op,
+        "definitions_pinned": len(old_rows),
+        "definitions_changed": changed_defs,
         "exhaustive": False,
     })
     ctx.assumptions += [
@@ -152,4 +203,6 @@ def run(ctx):
         "format!(\"{f:.0}\") of an integer-valued double is its exact decimal expansion (round conversion of out-of-range floats)",
         "IndexMap lookup is modelled as first entry with equal hash feed and == (hash collisions ignored)",
         "text-string indices: theorem at the level of byte windows on character starts; equivalence with character slicing for valid UTF-8 is C13's",
+        "filter arguments of map / map_values / walk / with_entries / paths / all / any are finite streams `Val -> List ValR`; the correspondence passes the real filter as a table of its real outputs on the values the model applies it to (tostring for join, path_value(f) for pick, split_ for splits likewise)",
+        "models of delpaths / del(.[k]) / has cover object keys and machine-integer array positions; slices, big integers and byte strings answer `unmodelled` (counted in the evidence)",
     ]
